@@ -8,7 +8,7 @@ from typing import Dict, List, Optional, Tuple
 from ..cfg import cfg_of, no_exc
 from ..model import AnalysisError, UNKNOWN, FuncInfo, norm, strip_cast, unparse, walk_shallow
 from ..report import Check
-from ..rules import branch_reaches_exit, calls_in_func, last_name
+from ..rules import Resolver, branch_reaches_exit, calls_in_func, last_name
 
 INTENTS = ('PLAY', 'PAUSE', 'KILL', 'STATUS')
 CONTROL = {'PLAY': ('self.play', []), 'PAUSE': ('self.pause', ['msg_text']), 'KILL': ('self.kill', ['msg_text'])}
@@ -79,13 +79,32 @@ def dispatch(chk: Check) -> None:
                 elif sched:
                     i, c = sched[-1]
                     ret_ok = path[i].kind == 'return' and path[i].ast.value is c
+                    if not ret_ok:
+                        rets_ = [(j, m_) for j, m_ in enumerate(path) if m_.kind == 'return' and m_.ast.value is not None and j > i]
+                        ret_ok = bool(rets_) and norm(value_on_path(path, rets_[-1][0], rets_[-1][1].ast.value)) == norm(value_on_path(path, i, c))
                     args_, kws_ = effective(path, i, c)
                     res.append(('call', tuple(args_), tuple(sorted(kws_.items())), ret_ok, c))
                 else:
-                    rets = [m_ for m_ in path if m_.kind == 'return']
+                    rets = [(j, m_) for j, m_ in enumerate(path) if m_.kind == 'return']
                     status = [c for m_ in path for c in _calls(m_) if norm(c.func) == 'self.get_status_info']
-                    res.append(('status', norm(rets[-1].ast.value) if rets and rets[-1].ast.value is not None else 'None', norm(status[0].args[0]) if status and status[0].args else None) if status
-                               else ('return', norm(rets[-1].ast.value) if rets and rets[-1].ast.value is not None else 'None'))
+
+                    def name_chain(nm, upto):
+                        # follow plain ``a = b`` re-bindings back to the variable that was first bound to the object
+                        for j in range(upto - 1, -1, -1):
+                            a_ = path[j].ast
+                            if path[j].kind == 'stmt' and isinstance(a_, (ast.Assign, ast.AnnAssign)) and a_.value is not None:
+                                t_ = (a_.targets[0] if isinstance(a_, ast.Assign) else a_.target)
+                                if isinstance(t_, ast.Name) and t_.id == nm:
+                                    return name_chain(a_.value.id, j) if isinstance(a_.value, ast.Name) else nm
+                        return nm
+                    if status:
+                        rj, rm = rets[-1] if rets else (len(path), None)
+                        rname = name_chain(rm.ast.value.id, rj) if rm is not None and isinstance(rm.ast.value, ast.Name) else (norm(rm.ast.value) if rm is not None and rm.ast.value is not None else 'None')
+                        aname = norm(status[0].args[0]) if status[0].args else None
+                        res.append(('status', rname, aname))
+                    else:
+                        rv_ = value_on_path(path, rets[-1][0], rets[-1][1].ast.value) if rets and rets[-1][1].ast.value is not None else None
+                        res.append(('return', norm(rv_) if rv_ is not None else 'None'))
             out[member] = res
         return out
 
@@ -267,7 +286,10 @@ def announcement(chk: Check) -> None:
         ok = txt == 'state_changed.{from_label}.{self.state.value}'
         fl = [n.value for n in ast.walk(oe.node) if isinstance(n, ast.Assign) and norm(n.targets[0]) == 'from_label']
         fparam = oe.params[1]
-        ok = ok and len(fl) == 1 and f'{fparam}.LABEL' in norm(fl[0]) and '.value' in norm(fl[0])
+        # (one conditional expression, or one assignment per branch: the label of the state left where there is one, a constant otherwise)
+        flv = [x for v_ in fl for x in ([v_.body, v_.orelse] if isinstance(v_, ast.IfExp) else [v_])]
+        ok = ok and bool(flv) and any(f'{fparam}.LABEL' in norm(v_) and '.value' in norm(v_) for v_ in flv) and all(
+            (f'{fparam}.LABEL' in norm(v_) and '.value' in norm(v_)) or isinstance(v_, ast.Constant) for v_ in flv)
     chk.ob('DOM-announcement', oe, ok, 'the subject is state_changed.<label left>.<label entered>, in that order, built from the previous state\'s label value and the current one',
            node=call, kind='subject-from-to')
     # tolerated failures
@@ -390,6 +412,11 @@ def loop_communicator(chk: Check) -> None:
     chk.ob('FWD-loop-communicator', cv, ok, 'a converted subscriber is called with the communicator and all message arguments', kind='converted-forwards')
     ct = [c for c in calls_in_func(cv) if last_name(c) == 'create_task']
     pk = [c for c in calls_in_func(cv) if last_name(c) == 'plum_to_kiwi_future']
-    ok = len(ct) == 1 and len(pk) == 1 and norm(pk[0].args[0]) == 'task_future' and [norm(a) for a in ct[0].args] == ['msg_fn', 'loop']
+    res = Resolver(cv)
+    ok = len(ct) == 1 and len(pk) == 1 and len(part) == 1 and len(pk[0].args) == 1 and len(ct[0].args) == 2
+    if ok:
+        # the value mirrored is the task, the task runs the partial, on the loop given to convert_to_comm (locals expanded)
+        ok = (norm(res.expand(pk[0].args[0])) == norm(res.expand(ct[0])) and norm(res.expand(ct[0].args[0])) == norm(res.expand(part[0]))
+              and norm(res.expand(ct[0].args[1])) == 'loop')
     chk.ob('FWD-loop-communicator', cv, ok, 'it is scheduled on the loop and its outcome mirrored to the communicator thread (C20)', kind='scheduled-and-mirrored')
     chk.assumptions.append('equivalence with the directly controlled twin inherits every C04-C06 finding (the remote path calls the same methods) and is not decided here')
